@@ -147,19 +147,6 @@ func helpOutput(c *HelpCase) (string, Outcome) {
 	var out Outcome
 	var app *cli.Cli
 	var argv []string
-	defer func() {
-		// the same request a second time on the same application object must print the same text
-		if out.Panic != "" || app == nil {
-			return
-		}
-		var out2 Outcome
-		WithSwap(&out2, func() { _ = app.Run(argv) })
-		if out2.Panic != "" {
-			out.Panic = "second rendering: " + out2.Panic
-		} else {
-			out.Raw = map[string][]string{"second": {out2.Stderr}}
-		}
-	}()
 	WithSwap(&out, func() {
 		appDesc := "zzappdesc"
 		if len(c.Parents) == 0 {
@@ -188,7 +175,9 @@ func helpOutput(c *HelpCase) (string, Outcome) {
 			for _, s := range c.Subs {
 				s := s
 				cmd.Command(strings.Join(s.Aliases, " "), s.Desc, func(sc *cli.Cmd) {
-					sc.Hidden = s.Hidden
+					if s.Hidden {
+						sc.Hidden = true // a visible sub command never touches the field
+					}
 					sc.LongDesc = s.Long
 					sc.Action = func() {}
 				})
@@ -210,6 +199,18 @@ func helpOutput(c *HelpCase) (string, Outcome) {
 			out.HasErr, out.Err = true, err.Error()
 		}
 	})
+	// the same request a second time on the same application object must satisfy the same oracle
+	// (only for the application's own help: the library re-runs sub command initializers on every Run, so a sub command
+	// that declares anything cannot be reached twice on one application object - existing behaviour, not claimed)
+	if out.Panic == "" && app != nil && len(c.Parents) == 0 {
+		var out2 Outcome
+		WithSwap(&out2, func() { _ = app.Run(argv) })
+		if out2.Panic != "" {
+			out.Panic = "second rendering: " + out2.Panic
+		} else {
+			out.Raw = map[string][]string{"second": {out2.Stderr}}
+		}
+	}
 	return out.Stderr, out
 }
 
